@@ -182,7 +182,9 @@ def check(res, iv, bounds, win, group, scalar, multi):
             if any(CUR["both"][i][1] != CUR["both"][i + 1][0] for i in range(len(CUR["both"]) - 1)):
                 res.violation("owm:consumer-not-adjacent", "calls not adjacent", case)
     except Exception as e:
-        res.violation(ctxrun.exc_fp(e, 3) + (":group" if group else ":row") + (":multi" if multi else ":single"), f"{type(e).__name__}: {e}"[:300], case)
+        longrow = any(b - a > 2 * win[0] for a, b in iv)
+        cls = (":group" if group else ":row") + f":wl{'0' if win[0] == 0 else '+'}" + (":row>2wl" if longrow else ":rows<=2wl")
+        res.violation(ctxrun.exc_fp(e, 3) + cls, f"{type(e).__name__}: {e}"[:300], case)
 
 
 def plan(tier, seed):
